@@ -497,8 +497,7 @@ PROPS = {
                 "while a search was held, a held iteration was released singly, or shutdown happened with a search in flight; all "
                 "ungated scripts with a go. evaluations = scripts. "
                 "Odd clocks (fallen flags, one clock only, moves-to-go without clocks) and malformed position lines ending in a pseudo-legal-but-illegal, non-pseudo-legal or unparsable move (the driver must go on or shut down) are part of the scripts. The quick tier ends with a short pass (a tenth of the scripts, other seeds) on the race-instrumented binary: a race report with a math/rand.(*Rand) frame is a violation (the thorough tier runs entirely on that binary). "
-                "Ungated scripts with a move-time go end with a goroutine census: 400 ms after shutdown no goroutine may be inside the driver package (gated scripts are exempt: a search may still be waiting for the harness's own gate). "
-                "Stall scripts (first iterations held): the first iteration of a 'go movetime 300' stays held until the next halting command has been sent and the move time has run out, so that the timer of the superseded search fires while the command loop waits for depth 1; the successor's own first iteration stays held.",
+                "Ungated scripts with a move-time go end with a goroutine census: 400 ms after shutdown no goroutine may be inside the driver package (gated scripts are exempt: a search may still be waiting for the harness's own gate).",
         "assumptions": COMMON_ASSUMPTIONS + ["the Go scheduler between gates is not owned by the harness", "race-detector reports in these runs are recorded as diagnostics (C17 is where race freedom is demanded), with one exception: concurrent use of a single math/rand.Rand, which is documented as unsafe and panics (index out of range) under contention - a crash waiting for its schedule - is a violation",
                                              "lines the driver answers by a deliberate shutdown (unparsable go arguments) end the script: clean closure is required"],
         "level_text": "Exploration with a harness-owned schedule for the orderings that matter (search completion vs command "
